@@ -68,6 +68,10 @@ PROFILES = {
     'queue': {'vehicles': 5, 'stations': 1, 'bases': 0, 'max_plugs': 1, 'charger_types': ['DCFC'], 'bev_only': True, 'colocate': True, 'near': True,
               'clusters': (1, 3), 'fleets': [], 'deltas': [30, 60, 61, 90], 'valid_p': 0.95, 'p_full_step': 0.5,
               'instr_weights': [3, 0.2, 4, 2, 0.2, 0.2, 1.5, 0.2, 0.1]},
+    # the queue profile with combustion vehicles in the fleet: they are sent to the fast charger like everyone else (and must be refused)
+    'queue_mixed': {'vehicles': 5, 'stations': 1, 'bases': 0, 'max_plugs': 1, 'charger_types': ['DCFC'], 'charger_pool': ['DCFC'], 'colocate': True, 'near': True,
+                    'clusters': (1, 3), 'fleets': [], 'deltas': [30, 60, 61, 90], 'valid_p': 0.95, 'p_full_step': 0.5,
+                    'instr_weights': [3, 0.2, 4, 2, 0.2, 0.2, 1.5, 0.2, 0.1]},
     'requests': {'vehicles': 3, 'p_full_step': 0.8, 'valid_p': 0.9},
     'fleets': {'fleets': ['fa', 'fb'], 'valid_p': 0.6},
     'fullsteps': {'p_full_step': 1.0, 'vehicles': 3, 'valid_p': 0.9},
